@@ -119,6 +119,40 @@ def shard(p):
                 continue
             if wi % 37 == 0:
                 acc.sample({"word": w, "read_as": parts, "si": str(sv), "dims": G.si.fmt_dims(dims), "valid_readings": len(R.readings(w))}, cap=2)
+        # ---- (2b) words for the offset scales (°C, °F with any prefix) and prefixed kelvin: what such a word MEANS shows only in a
+        # conversion between two different scales, where the prefix has to be applied on the right side of the zero point
+        # (300 K to m°C = 26850, seed C05-g); as an interval the word is judged above like any other
+        if p["shard"] % 4 == 0:
+            tw = [e for e in V.entries if e["offset"] or e["unit"] == "Kelvin"]
+            def to_k(e, x):
+                y = x * F(10) ** e["prefix"]
+                return y + F(27315, 100) if e["unit"] == "Celsius" else ((y - 32) * F(5, 9) + F(27315, 100) if e["unit"] == "Fahrenheit" else y)
+            def from_k(e, k):
+                y = k - F(27315, 100) if e["unit"] == "Celsius" else ((k - F(27315, 100)) * F(9, 5) + 32 if e["unit"] == "Fahrenheit" else k)
+                return y / F(10) ** e["prefix"]
+            treqs, tmeta = [], []
+            for e in tw:
+                for _k in range(3):
+                    o = rng.choice(tw)
+                    x = rng.choice([F(0), F(1), F(300), F(rng.randint(-4000, 4000), 10), F(rng.randint(1, 10 ** 6))])
+                    t10 = int(x * 10)
+                    xs = str(x.numerator) if x.denominator == 1 else "%s%d.%d" % ("-" if x < 0 else "", abs(t10) // 10, abs(t10) % 10)
+                    for src, dst in ((e, o), (o, e)):
+                        treqs.append({"op": "query", "q": "%s %s to %s" % (xs, src["word"], dst["word"])})
+                        tmeta.append((treqs[-1]["q"], from_k(dst, to_k(src, x)), dst))
+            treps = d.call_many(treqs, timeout=300) if treqs else []
+            for (q, want, dst), rep in zip(tmeta, treps):
+                acc.evaluations += 1
+                acc.count("temperature_word_conversions")
+                acc.nontriv(q)
+                items = rep.get("items") or []
+                if len(items) != 1 or "ok" not in items[0]:
+                    acc.violate("c05:temperature-word:rejected", "%r gave %s" % (q, items or rep), {"query": q, "observed": items, "build": p["kind"]})
+                    continue
+                got = G.si.frac(items[0]["ok"]["v"])
+                if got != want or items[0]["ok"]["u"] != [[dst["key"], 1, dst["prefix"]]]:
+                    acc.violate("c05:temperature-word:%s" % dst["unit"], "%r is %s %s; prefix and scale of the two words give %s" % (q, got, items[0]["ok"]["u"], want),
+                                {"query": q, "observed": items, "expected": str(want), "build": p["kind"]})
         # ---- (3) + (4) concatenations and expressions over single-reading accepted words
         single = [e for e in V.entries if not e["offset"] and e["key"] not in bad_keys
                   and len({(s, dd) for (s, dd, iv) in R.readings(e["word"])}) == 1]
